@@ -105,7 +105,7 @@ let exn_s = function
   | C.IndexError -> "IndexError" | C.AssertionError -> "AssertionError" | C.Unmodelled -> "Unmodelled"
   | C.UserExn w -> "User " ^ val_s w
 let res_s = function
-  | C.Ok _ -> "A" | C.Rej None -> "R0" | C.Rej (Some l) -> "R" ^ string_of_int (int_of_nat l) | C.Unsup -> "U"
+  | C.Ok _ -> "A" | C.Rej None -> "R0" | C.Rej (Some l) -> "R" ^ string_of_int (int_of_nat l) | C.Unsup w -> "U" ^ string_of_int (int_of_nat w)
 let ann_s = function
   | C.AReveal (l, t) -> "r" ^ string_of_int (int_of_nat l) ^ ":" ^ ty_s t
   | C.ADead l -> "d" ^ string_of_int (int_of_nat l)
